@@ -97,7 +97,7 @@ func (w workflowEngine) Parse(
 	}
 
 	flowCaches := make([]loadfile.FileCache, 0)
-	stepWorkflowFileCache, err := SubworkflowCache(wf, files.RootDir(), yamlConverter, flowCaches)
+	stepWorkflowFileCache, err := subworkflowCache(wf, files.RootDir(), yamlConverter, flowCaches, nil, files)
 	if err != nil {
 		return nil, err
 	}
@@ -162,21 +162,53 @@ func StepWorkflowPaths(wf *workflow.Workflow) map[string]string {
 // SubworkflowCache creates a file cache of the sub-workflows referenced
 // in this workflow using rootDir as a context.
 func SubworkflowCache(wf *workflow.Workflow, rootDir string, converter workflow.YAMLConverter, flowCaches []loadfile.FileCache) (loadfile.FileCache, error) {
-	return subworkflowCache(wf, rootDir, converter, flowCaches, nil)
+	return subworkflowCache(wf, rootDir, converter, flowCaches, nil, nil)
 }
 
 // subworkflowCache is SubworkflowCache with the chain of sub-workflow files that led to wf, so that a
-// workflow that (transitively) references itself is reported instead of being followed forever.
+// workflow that (transitively) references itself is reported instead of being followed forever, and with
+// the files the caller supplied. A supplied sub-workflow is used as it is and need not exist in rootDir;
+// the sub-workflows it references are followed like those of any other.
 func subworkflowCache(
 	wf *workflow.Workflow,
 	rootDir string,
 	converter workflow.YAMLConverter,
 	flowCaches []loadfile.FileCache,
 	parentFiles []string,
+	supplied loadfile.FileCache,
 ) (loadfile.FileCache, error) {
 	stepWorkflowPaths := StepWorkflowPaths(wf)
+	if supplied != nil {
+		for path := range stepWorkflowPaths {
+			content, err := supplied.ContentByKey(path)
+			if err != nil {
+				continue
+			}
+			delete(stepWorkflowPaths, path)
+			for _, parentFile := range parentFiles {
+				if parentFile == path {
+					return nil, fmt.Errorf("sub-workflow file %s references itself through its foreach steps", path)
+				}
+			}
+			subwf, err := converter.FromYAML(content)
+			if err != nil {
+				return nil, err
+			}
+			chain := append(append(make([]string, 0, len(parentFiles)+1), parentFiles...), path)
+			flowCache, err := subworkflowCache(subwf, rootDir, converter, flowCaches, chain, supplied)
+			if err != nil {
+				return nil, err
+			}
+			if flowCache != nil {
+				flowCaches = append(flowCaches, flowCache)
+			}
+		}
+	}
 	if len(stepWorkflowPaths) == 0 {
-		return nil, nil
+		if len(flowCaches) == 0 {
+			return nil, nil
+		}
+		return loadfile.MergeFileCaches(flowCaches...)
 	}
 	stepFilesCache, err := loadfile.NewFileCacheUsingContext(rootDir, stepWorkflowPaths)
 	if err != nil {
@@ -198,7 +230,7 @@ func subworkflowCache(
 		}
 		// Copy, so that sibling sub-workflows do not see each other's chain.
 		chain := append(append(make([]string, 0, len(parentFiles)+1), parentFiles...), ctxFile.AbsolutePath)
-		flowCache, err := subworkflowCache(subwf, rootDir, converter, flowCaches, chain)
+		flowCache, err := subworkflowCache(subwf, rootDir, converter, flowCaches, chain, supplied)
 		if err != nil {
 			return nil, err
 		}
